@@ -569,7 +569,7 @@ class Gen:
             if d(st.integers(0, 5)) == 0 and items:
                 items.pop(d(st.integers(0, len(items) - 1)))
             a = {tag: [list(p) for p in items] if tag == "D" else list(items)}
-            self.cur_slots = set()
+            self.cur_slots = _slots_in(a)  # slots used by nested arguments of this very call stay taken
             self._use_slot(a, slot)
             pos = d(st.integers(0, 1))
             args = [self.arg()] * pos + [a]
@@ -695,6 +695,21 @@ def run_configs(draw, nodes=8, max_errors=False, retry=False):
 
 # ---------------------------------------------------------------------------
 # inspection helpers over specs
+
+
+def _slots_in(a, out=None):
+    if out is None:
+        out = set()
+    if isinstance(a, list):
+        for x in a:
+            _slots_in(x, out)
+    elif isinstance(a, dict):
+        if "sh" in a:
+            out.add(a["sh"])
+        for k, v in a.items():
+            if k in ("L", "T", "S", "D", "items"):
+                _slots_in(v, out)
+    return out
 
 
 def _uses_slots(a):
